@@ -64,7 +64,7 @@ def gen_cases(tier, seed):
                     d['nw'] = {simcase.RW: [r.choice([0.5, 1.0, 1.5]) for _ in range(n)]}
                 out.append({'kind': 'tree', 'graph': d, 'wm': wm, 'I0': I0, 'R0': R0, 'tau': r.choice([0.6, 1.0, 2.0]), 'gamma': r.choice([0.5, 1.0]),
                             'tspan': 4.0, 'tcount': 9, 'tmin': r.choice([0, 1.5]), 'entry_form': r.choice(['pure_IC', 'Y0']), 'seed': cs})
-    n2 = 900 if q else 40000
+    n2 = 2000 if q else 40000
     kinds = ['final', 'final_d', 'recur', 'tau0', 'gamma0', 'tau0', 'gamma0']
     for j in range(n2):
         cs = case_seed(seed, PID, j)
